@@ -24,7 +24,7 @@ def main():
                        "the real code before the loop on head x up to 4 abstract chunks; check_mandatory from an arbitrary map; the rest of __init__ on every grammatical vector (M-ASSIGN, scores abstracted here, real in C01-C03)")
     chk.bounds = ["field alphabet: finite (legal literals + systematic near misses, listed in evidence); strings outside it are covered only through the written induction and the code's use of dict membership on the split parts",
                   "L2: heads from a finite near-miss list, at most 4 chunks after the head (the code before the loop does not look at individual chunks beyond emptiness of the string end)"]
-    chk.outside = ["non-str arguments", "the unbounded free-string lemma L1 (solver string theory) is run in the thorough tier only"]
+    chk.outside = ["non-str arguments", "fields and prefixes outside the finite alphabets (an unbounded free-string lemma in a solver string theory was planned and NOT built)"]
     chk.assumptions = ["str.split returns separator-free chunks whose join is the input (CPython contract)",
                        "composition over any number of fields: written induction with invariant 'metric map = map of the fields seen so far, all distinct' (DESIGN.md section 6 C04)"]
     C.finish(chk)
